@@ -1,6 +1,6 @@
-CONSTANT FIXED = FALSE
-CONSTANT FIXED2 = FALSE
-CONSTANT FIXED3 = FALSE
+CONSTANT FIXED = TRUE
+CONSTANT FIXED2 = TRUE
+CONSTANT FIXED3 = TRUE
 CONSTANT FIXED4 = FALSE
 INIT Init
 NEXT Next
